@@ -13,6 +13,9 @@ import (
 	"sort"
 	"strconv"
 	"strings"
+	"time"
+
+	"github.com/lindb/common/pkg/ltoml"
 
 	"github.com/lindb/lindb/kv"
 	"github.com/lindb/lindb/kv/table"
@@ -37,6 +40,7 @@ type sEntry struct {
 type sScan struct {
 	snap version.Snapshot
 	it   table.Iterator
+	rd   table.Reader
 	file int64
 	ver  int64
 	nk   int // keys handed out
@@ -97,7 +101,9 @@ func (k *sCase) open() error {
 	}
 	k.dir = dir
 	k.storeName = filepath.Join(dir, "store")
-	st, err := kv.GetStoreManager().CreateStore(k.storeName, kv.DefaultStoreOption())
+	opt := kv.DefaultStoreOption()
+	opt.TTL = ltoml.Duration(-time.Hour) // every unreferenced reader-cache entry counts as expired
+	st, err := kv.GetStoreManager().CreateStore(k.storeName, opt)
 	if err != nil {
 		return err
 	}
@@ -267,7 +273,7 @@ func (k *sCase) openScan(i int, f int64) {
 			k.c.Branch("open-inside-another-scan-of-the-table")
 		}
 	}
-	k.scans[i] = &sScan{snap: snap, it: rd.Iterator(), file: f, ver: snap.GetCurrent().ID()}
+	k.scans[i] = &sScan{snap: snap, it: rd.Iterator(), rd: rd, file: f, ver: snap.GetCurrent().ID()}
 	if k.comp != nil {
 		k.c.Branch("open-inside-parked-compaction")
 	}
@@ -406,6 +412,43 @@ func (k *sCase) compStep(all bool) {
 	}
 }
 
+// tick: obsolete-file cleanup and a reader-cache Cleanup (every unreferenced entry expired) between two scan steps.
+// The tables under an open scan are retained by the scan's snapshot: they must stay in the directory and stay the
+// cache's (mapped) entries. Checked BEFORE the scan goes on (a read through an unmapped reader is never executed).
+func (k *sCase) tick() {
+	kv.VerifC02DeleteObsoleteFiles(k.fam)
+	kv.VerifC02CacheCleanup(k.store)
+	k.c.Branch("op:cleanup-tick")
+	ents := table.VerifC02CacheEntries(kv.VerifC02Cache(k.store))
+	onDisk := map[int64]bool{}
+	if des, err := os.ReadDir(kv.VerifC02FamilyPath(k.fam)); err == nil {
+		for _, de := range des {
+			if n, isT := tableNo(de.Name()); isT {
+				onDisk[n] = true
+			}
+		}
+	}
+	for i, s := range k.scans {
+		if s == nil {
+			continue
+		}
+		ok := false
+		for _, e := range ents {
+			if n, isT := tableNo(e.FileName); isT && n == s.file && e.Reader == s.rd {
+				ok = true
+			}
+		}
+		if !onDisk[s.file] {
+			k.c.Fail("scanned-table-deleted", fmt.Sprintf("table %d under scan %d (snapshot of version %d, still open) is no longer in the family's directory", s.file, i, s.ver))
+		}
+		if !ok {
+			k.c.Fail("scanned-reader-unmapped", fmt.Sprintf("the reader of table %d under scan %d (snapshot of version %d, still open) was closed (unmapped) by the cache Cleanup", s.file, i, s.ver))
+			s.snap.Close()
+			k.scans[i] = nil
+		}
+	}
+}
+
 func (k *sCase) pickFile(rng *rand.Rand) (int64, bool) {
 	fs := k.curFiles()
 	if len(fs) == 0 {
@@ -435,7 +478,8 @@ func (k *sCase) run(i int, rng *rand.Rand) {
 		k.openScan(0, f)
 		k.next(0)
 		k.startCompaction(false)
-		for k.next(0) {
+		k.tick()
+		for k.scans[0] != nil && k.next(0) {
 		}
 		k.c.Branch("directed:compaction-inside-scan")
 		return
@@ -513,6 +557,8 @@ func (k *sCase) run(i int, rng *rand.Rand) {
 			if k.comp == nil {
 				k.startCompaction(rng.Intn(2) == 0)
 			}
+		case r < 17:
+			k.tick()
 		default:
 			k.compStep(rng.Intn(4) == 0)
 		}
